@@ -146,7 +146,7 @@ register("C13", run=run_c13, tie="coq/SegLog/Cases.v vs log/log.go, log/segment.
 # these breaks the tie for that property); monitor tags the property owns
 NODE_PROPS = {
  "C01": dict(events={"EVoteReq", "EVoteResult", "ETimeout", "ETimeoutNowReq", "ERestart", "LReplUpdate", "EAppendReq", "EAppendReqCut"}, tags={"C01", "C05"}),
- "C02": dict(events={"EAppendReq", "EAppendReqCut", "ESnapReq", "LClient", "LReplUpdate", "LFlrSend", "LFlrResp", "EVoteReq", "ERestart", "LFlrSnapInstalled"}, tags={"C02"}),
+ "C02": dict(events={"EAppendReq", "EAppendReqCut", "ESnapReq", "LClient", "LReplUpdate", "LFlrSend", "LFlrResp", "EVoteReq", "ERestart", "LFlrSnapInstalled", "LChangeConfig"}, tags={"C02"}),
  "C03": dict(events={"EAppendReq", "EAppendReqCut", "ESnapReq", "LClient", "LReplUpdate", "ERestart", "ESnapRun"}, tags={"C03"}),
  "C04": dict(events={"EAppendReq", "EAppendReqCut", "LFlrSend", "LClient", "ESnapReq", "ERestart"}, tags={"C04"}),
  "C05": dict(events={"EVoteReq", "EVoteResult", "ETimeout", "ETimeoutNowReq", "ERestart", "LReplUpdate", "ETask"}, tags={"C05"}),
